@@ -272,14 +272,14 @@ def run(chk):
         t0[0] = time.time()
     os.environ.setdefault("GOMAXPROCS", "2")   # many small cases: one OS thread pair per worker process is plenty
 
-    raws = tlc(chk, "quick" if tier == "quick" else "thorough", 3).cases
+    raws = tlc(chk, "quick" if tier == "quick" else "thorough", 3, workers=8 if tier == "quick" else None).cases
     cases = make_cases(raws, "s")
     if tier != "quick":
         have = {c["src"] for c in cases}
         for n in (5, 4):
             # -simulate evaluates the emitting invariant on every successor it generates, so each random walk
-            # yields its last state's ~80 siblings: 40 walks x 8 workers = 320 random prefixes per length
-            sim = tlc(chk, "sim", n, simulate=40, workers=8, label="FamSvg/sim%d" % n)
+            # yields its last state's ~80 siblings: 30 walks x 8 workers = 240 random prefixes per length
+            sim = tlc(chk, "sim", n, simulate=30, workers=8, label="FamSvg/sim%d" % n)
             new = [c for c in make_cases(sim.cases, "r%d" % n) if c["src"] not in have]
             have.update(c["src"] for c in new)
             cases += new
@@ -309,7 +309,7 @@ def run(chk):
             nrisky = 0
 
         lap("hang-probe")
-        nbin = 400 if tier == "quick" else 4000
+        nbin = 400 if tier == "quick" else 2000
         chosen = rnd.sample(normal, min(nbin, len(normal)))
         bins = [bin_variant(c, k, tmp) for k, c in enumerate(chosen)]
         results = replay_robust(normal + bins)
